@@ -39,7 +39,7 @@ def sub_summary(evn):
     return {'ok': True, 'id': ret['id'], 'leaves': out_leaves}
 
 
-def cases_from_result(r, wf_by_file, inputs, main='workflow.yaml', sub_inputs=None):
+def cases_from_result(r, wf_by_file, inputs, main='workflow.yaml', sub_inputs=None, expect_items=None):
     """turn one scenario result into TLC cases (one per engine run found in the trace); sub-runs of foreach steps are
     cases of their own (with the sub-workflow's abstract record) and are summarised in the parent's `subs` table"""
     evs = read_trace(r['trace'])
@@ -104,6 +104,7 @@ def cases_from_result(r, wf_by_file, inputs, main='workflow.yaml', sub_inputs=No
             stab[st] = [{'i': i, 'ok': s['ok'], 'id': s['id'], 'leaves': s['leaves']} for i, s, _ in lst]
         evn = normed[ru['run']]
         cases.append({'wf': strip_wf(wf_by_file[f]), 'input': inleaves, 'noreturn': False, 'subs': stab,
+                      'expectItems': (expect_items or {}) if ru['parent'] is None else {},
                       'events': evn, '_run': ru['run'], '_returned': any(e['ev'] == 'Return' for e in evn), '_file': f})
     return cases
 
@@ -177,7 +178,7 @@ def run_family(binary, work, items, jobs=None, batch=6, meaning_needed=True, log
             findings.append(Finding(prop='C05', rule='goroutine-left-after-return', detail=leak_site(lk), item=i, where=r['dir']))
         wfs = {'workflow.yaml': it['wf']}
         wfs.update(it.get('subwfs', {}))
-        cs = cases_from_result(r, wfs, it.get('inputs') or [it['input']])
+        cs = cases_from_result(r, wfs, it.get('inputs') or [it['input']], expect_items=it.get('expect_items'))
         for c in cs:
             if res.get('watchdog'):
                 c['noreturn'] = True
